@@ -172,6 +172,58 @@ def unmask_scope(res, facts):
     return n
 
 
+def raw_word_vs_view(res, facts):
+    """RAW-WORD: in a function that receives both the data atom and the view pointer, the raw data word (its low bit is a tag for
+    even buffers and an address bit for odd ones) is never compared with, or subtracted from, the view pointer: only the
+    transformed word (the table's unmasking applied) denotes an address. `ptr == shared` happens to be true for a view that
+    starts one byte into an even buffer."""
+    from .flow import ExprBuilder, canon, walk, fmt_expr
+    n = 0
+    for b in facts.fn_bodies():
+        if facts.is_test(b) or b.kind not in ("fn", "assoc_fn") or b.arg_count < 2:
+            continue
+        tys = [b.locals[i]["ty"] for i in range(1, b.arg_count + 1)]
+        atoms = [i + 1 for i, t in enumerate(tys) if "AtomicPtr" in t or "Atomic<*mut" in t]
+        views_ = [i + 1 for i, t in enumerate(tys) if t in ("*const u8", "*mut u8")]
+        fn_params = [i + 1 for i, t in enumerate(tys) if t.startswith(("fn(", "unsafe fn(")) or "closure" in t or t in ("F", "G") or t.startswith("impl Fn")]
+        if not atoms or not views_ or not fn_params:
+            continue            # only the helpers shared by both parities: there the raw word means different things per table
+        eb = ExprBuilder(b, facts, inline=True)
+
+        def raw_word(e, under=False):
+            """e contains a load of the data atom that is not inside an application of the transformer"""
+            if not isinstance(e, tuple) or not e:
+                return False
+            if e[0] == "icall" or (e[0] == "call" and e[1].rsplit("::", 1)[-1] in ("ptr_map",)):
+                return False
+            if e[0] == "call" and e[1].rsplit("::", 1)[-1] in ("load", "get_mut", "with_mut") and any(x == ("param", k) for x in walk(e) for k in atoms):
+                return True
+            return any(raw_word(x) for x in e if isinstance(x, tuple))
+
+        def view(e):
+            return isinstance(e, tuple) and any(x == ("param", k) for x in walk(e) for k in views_)
+        for bi, blk in enumerate(b.blocks):
+            if blk["cleanup"]:
+                continue
+            pairs = []
+            for si, s_ in enumerate(blk["stmts"]):
+                if s_["k"] == "assign" and s_["rv"]["k"] == "bin" and s_["rv"]["op"].replace("WithOverflow", "") in ("Eq", "Ne", "Lt", "Le", "Gt", "Ge", "Sub", "Offset"):
+                    pairs.append((canon(eb.operand(s_["rv"]["a"], (bi, si))), canon(eb.operand(s_["rv"]["b"], (bi, si))), s_["rv"]["op"]))
+            t = blk["term"]
+            if t["k"] == "call" and len(t["args"]) == 2:
+                fn = callee(t)
+                if fn and fn["name"] in ("offset_from", "eq", "ne", "sub_ptr", "offset_from_unsigned"):
+                    loc = (bi, len(blk["stmts"]))
+                    pairs.append((canon(eb.operand(t["args"][0], loc)), canon(eb.operand(t["args"][1], loc)), fn["name"]))
+            for (x, y, op) in pairs:
+                n += 1
+                if (raw_word(x) and view(y) and not view(x)) or (raw_word(y) and view(x) and not view(y)):
+                    res.bad("%s|raw data word related to the view pointer" % b.id, b.loc(bi),
+                            "`%s` relates the raw data word to the view pointer (%s): the low bit of the word is a tag in one table and an address bit in the other, "
+                            "so the outcome depends on the parity of the buffer address" % (op, fmt_expr(x)[:50] + " ~ " + fmt_expr(y)[:50]))
+    return n
+
+
 def run(facts):
     res = Result("E2", "the even/odd promotable vtables are slot-wise isomorphic modulo unmasking; the parity dispatch pairs tagged data with the "
                        "unmasking vtable; KIND constants and alignment assertions agree between the two modules")
@@ -348,5 +400,6 @@ def run(facts):
     else:
         res.bad(key, "-", "compile-time assertion `align_of::<Shared>() %% 2 == 0` missing for a control block (%d found)" % n_align)
     nu = unmask_scope(res, facts)
+    raw_word_vs_view(res, facts)
     res.notes.append("%d applications of a caller-supplied address transformer in slot helpers (vacuous when the tables do not share helpers)" % nu)
     return res
